@@ -335,9 +335,6 @@ func (g *Gen) genValueNN(t *TypeRef, depth int) any {
 		if depth > 3 {
 			n = g.R.Pick(2)
 		}
-		if td := g.S.Types[t.Of.Base()]; g.Safe && td != nil && td.Kind == "enum" {
-			n = 0 // a non-empty list of enum values makes the request compiler panic (known finding)
-		}
 		out := make([]any, 0, n)
 		for i := 0; i < n; i++ {
 			out = append(out, g.genValue(t.Of, depth+1))
@@ -503,7 +500,7 @@ func (g *Gen) GenOp(mode string) *Op {
 	g.MaxD = 2 + g.R.Pick(4)
 	g.NoResol = g.R.Chance(1, 4)
 	if g.Safe {
-		g.ResolverOK = func(ctx string) bool { return !strings.ContainsAny(ctx, "ano") }
+		g.ResolverOK = func(ctx string) bool { return !strings.ContainsAny(ctx, "an") }
 	} else {
 		g.ResolverOK = nil
 	}
@@ -815,7 +812,7 @@ func (g *Gen) rfDuplicate(op *Op) {
 		}
 		src := common.PickOf(g.R, fields)
 		c := cloneNodes([]*Node{src})[0]
-		if g.R.Chance(1, 2) && !(g.Safe && r.inCall) {
+		if g.R.Chance(1, 2) {
 			g.aliasN++
 			c.Alias = fmt.Sprintf("a%d", g.aliasN)
 		}
@@ -922,28 +919,6 @@ func (g *Gen) rfSubset(op *Op) {
 
 var rfNames = []string{"alias", "reorder", "duplicate", "fragment", "subset"}
 
-// sanitizeSafe (safe profile): inside the selection of a field-resolver / @requires field an
-// aliased copy of a field that is also selected without alias is dropped by the plan builder
-// (known finding); make such copies exact duplicates instead.
-func (g *Gen) sanitizeSafe(op *Op) {
-	for _, r := range g.allSelSets(op) {
-		if !r.inCall {
-			continue
-		}
-		plain := map[string]bool{}
-		for _, n := range *r.items {
-			if n.Kind == "f" && n.Alias == "" {
-				plain[n.Name] = true
-			}
-		}
-		for _, n := range *r.items {
-			if n.Kind == "f" && n.Alias != "" && plain[n.Name] {
-				n.Alias = ""
-			}
-		}
-	}
-}
-
 // Reformulate applies 1-3 random reformulation steps to a copy of op.
 func (g *Gen) Reformulate(op *Op) *Op {
 	c := op.Clone()
@@ -966,8 +941,5 @@ func (g *Gen) Reformulate(op *Op) *Op {
 		}
 	}
 	c.Label = strings.Join(names, "+")
-	if g.Safe {
-		g.sanitizeSafe(c)
-	}
 	return c
 }
